@@ -175,10 +175,18 @@ mod harness {
     #[kani::proof]
     #[kani::unwind(10)]
     #[kani::stub(alloc::fmt::format, stub_format)]
-    fn h_format_arr_order() {
+    fn h_format_arr_order() { check_format_arr(3); }
+    #[kani::proof]
+    #[kani::unwind(10)]
+    #[kani::stub(alloc::fmt::format, stub_format)]
+    fn h_format_arr_too_few() { check_format_arr(2); }
+    #[kani::proof]
+    #[kani::unwind(10)]
+    #[kani::stub(alloc::fmt::format, stub_format)]
+    fn h_format_arr_too_many() { check_format_arr(4); }
+    fn check_format_arr(n: usize) {
         let w: u8 = kani::any(); let p: u8 = kani::any(); let v: u8 = kani::any();
         let vals = [Val::Num(NumValue(w as f64)), Val::Num(NumValue(p as f64)), Val::Num(NumValue(v as f64)), Val::Num(NumValue(77.0))];
-        let n: usize = kani::any(); kani::assume(n <= 4);
         unsafe { NPROBES = 0; }
         let r = format_arr("%*.*d%%", &vals[..n]);
         if n < 3 { assert!(r.is_err(), "obligation: too few values is an error"); }
@@ -192,7 +200,7 @@ mod harness {
                 assert!(PROBES[1].unwrap().conv_is_percent && PROBES[1].unwrap().value == Val::Null, "obligation: %% consumes no value");
             }
         }
-        kani::cover!(n == 3 && w != p);
+        kani::cover!(w != p);
     }
 
     /// integer rendering: length honours max(width, natural length); sign/blank/plus; zero padding; # prefix -- small values
